@@ -2,4 +2,4 @@ From Coq Require Import Extraction ExtrOcamlBasic NArith ZArith.
 From LTV.C10 Require Import Model.
 Set Extraction Optimize.
 Extraction Language OCaml.
-Extraction "extracted/c10_model.ml" load opened check hash_succeeded uncertain_saved saved_mtime Z.of_N.
+Extraction "extracted/c10_model.ml" load opened check hash_succeeded uncertain_saved saved_mtime resave_unchecked unc_kept_flag Z.of_N.
